@@ -41,7 +41,7 @@ import sys
 class Frag:
     def __init__(self, name, file, fn=None, impl=None, cfg=None, expr=None, params=(), bind=None,
                  atomic=False, width=64, sub=None, ctor=None, generic=None, doc="", nth=0, num="N",
-                 out=None, all_sites=False, try_into_bits=32, cast64=False):
+                 out=None, all_sites=False, try_into_bits=32, cast64=False, subst=None, block=None):
         self.name, self.file, self.fn, self.impl, self.cfg = name, file, fn, impl, cfg
         self.expr, self.params, self.bind = expr, list(params), dict(bind or {})
         self.atomic, self.width, self.sub, self.ctor = atomic, width, sub, dict(ctor or {})
@@ -51,6 +51,9 @@ class Frag:
         self.all_sites = all_sites          # anchored expression: every occurrence must translate identically
         self.try_into_bits = try_into_bits
         self.cast64 = cast64                # `as u64` truncates (the operand is a u128)
+        self.subst = list(subst or [])      # (regex, replacement) applied to the located text before parsing:
+                                            # names effectful sub-expressions (atomic loads, error constructors)
+        self.block = block                  # (start regex, end regex): an anchored statement sequence
 
 
 ST = "compio-executor/src/task/state.rs"
@@ -159,6 +162,22 @@ FRAGS = [
          params=[("now", "N"), ("period", "N"), ("rem", "N")], sub="trunc", cast64=True,
          bind={"now": "now", "self.period": "period", "rem": "rem"},
          doc="Interval::tick: the instant of the next tick"),
+    # ---- C06: Drop for SharedFd: when the waiting closer is woken ---------------------------
+    Frag("fd_drop_wakes", "compio-driver/src/fd.rs", expr=r"^\s*if (Shared::strong_count\(&self\.0\) == 2 && self\.0\.waits\.load\(Ordering::Acquire\)) \{",
+         subst=[(r"Shared::strong_count\(&self\.0\)", "count"), (r"self\.0\.waits\.load\(Ordering::Acquire\)", "waits")],
+         params=[("count", "nat"), ("waits", "bool")], bind={"count": "count", "waits": "waits"}, num="nat",
+         doc="Drop for SharedFd: the condition under which the registered waker is woken"),
+    # ---- C12: SyncWriteBuf::write: how many bytes are accepted ------------------------------
+    Frag("sync_write_accept", "compio-io/src/compat/sync_stream.rs",
+         block=(r"^\s*if inner\.buf_len\(\) \+ buf\.len\(\) > self\.max_buffer_size \{", r"^\s*Ok\(buf\.len\(\)\)\s*\n\s*\}"),
+         subst=[(r"Err\(would_block\(\"\"\)\)", "None"), (r"inner\.extend_from_slice\([^;]*\)\?;", ""),
+                (r"\bOk\(", "Some(")],
+         params=[("len0", "nat"), ("n", "nat"), ("maxb", "nat")], num="nat", sub="checked",
+         bind={"inner.buf_len()": "len0", "buf.len()": "n", "self.max_buffer_size": "maxb"},
+         doc="SyncWriteBuf::write: Some k = k bytes appended, None = WouldBlock (buffer full)"),
+    Frag("sync_read_limit_hit", "compio-io/src/compat/sync_stream.rs", expr=r"^\s*if (current_len >= self\.max_buffer_size) \{",
+         params=[("len0", "nat"), ("maxb", "nat")], num="nat", bind={"current_len": "len0", "self.max_buffer_size": "maxb"},
+         doc="SyncReadBuf::fill_read_buf: the read limit is reported (OutOfMemory)"),
 ]
 
 # extra fragments are appended by the property builders below this line
@@ -882,6 +901,87 @@ class Gen:
         t, ty = self.result(tail, env, top)
         return ("(" + " ".join(out + [t]) + ")" if out else t), ty
 
+    def cblk(self, b, env):
+        if b[0] != "block":
+            return self.ctail(b, env)
+        return self.cstmts(list(b[1]), b[2], dict(env))
+
+    def csub(self, e, env):
+        """`a - b` (checked) or None"""
+        while e[0] == "paren":
+            e = e[1]
+        if e[0] == "bin" and e[1] == "-":
+            a, _ = self.ex(e[2], env)
+            b, _ = self.ex(e[3], env)
+            return "(%s %s %s)" % ("usub" if self.S == "nat" else "usubN", a, b)
+        return None
+
+    def ctail(self, e, env):
+        if e is None:
+            return "(Ok tt)"
+        while e[0] == "paren":
+            e = e[1]
+        if e[0] == "block":
+            return self.cblk(e, env)
+        if e[0] == "if":
+            if e[3] is None:
+                raise TrError("if without else in tail position")
+            c, _ = self.ex(e[1], env)
+            return "(if %s then %s else %s)" % (c, self.cblk(e[2], env), self.cblk(e[3], env))
+        if e[0] == "match":
+            sc = e[1]
+            scs = sc[1] if sc[0] == "tuple" else [sc]
+            st = [self.ex(x, env)[0] for x in scs]
+            arms = []
+            for p, b in e[2]:
+                env2 = dict(env)
+                ps = p[1] if (p[0] == "ptuple" and sc[0] == "tuple") else [p]
+                pt = ", ".join(self.pat(x, env2) for x in ps)
+                arms.append("| %s => %s" % (pt, self.cblk(b, env2)))
+            return "(match %s with %s end)" % (", ".join(st), " ".join(arms))
+        su = self.csub(e, env)
+        if su is not None:
+            return su
+        return "(Ok %s)" % self.ex(e, env)[0]
+
+    def cstmts(self, ss, tail, env):
+        out = []
+        while ss:
+            s = ss.pop(0)
+            if s[0] in ("let", "assign"):
+                if s[0] == "let":
+                    if s[1][0] != "pvar":
+                        raise TrError("pattern let in a checked fragment")
+                    name = s[1][1]
+                else:
+                    name = flat_path(s[1])
+                    if name is None or (name not in env and name not in self.f.bind):
+                        raise TrError("assignment to an unbound place")
+                v = self.fresh(re.sub(r"\W", "_", name) + "_")
+                su = self.csub(s[2], env)
+                if su is not None:
+                    out.append("let! %s := %s in" % (v, su))
+                    env[name] = (v, "num")
+                else:
+                    t, ty = self.ex(s[2], env)
+                    out.append("let %s := %s in" % (v, t))
+                    env[name] = (v, ty)
+            elif s[0] == "return":
+                return "(" + " ".join(out + [self.ctail(s[1], env)]) + ")"
+            elif s[0] == "expr":
+                e = s[1]
+                if self.droppable(e):
+                    continue
+                if e[0] == "if" and e[3] is None and e[2][1] and e[2][1][-1][0] == "return" and e[2][2] is None:
+                    c, _ = self.ex(e[1], env)
+                    a = self.cstmts(list(e[2][1]), None, dict(env))
+                    r = self.cstmts(ss, tail, dict(env))
+                    return "(" + " ".join(out + ["(if %s then %s else %s)" % (c, a, r)]) + ")"
+                if e[0] in ("if", "match") and not ss and tail is None:
+                    return "(" + " ".join(out + [self.ctail(e, env)]) + ")"
+                raise TrError("expression statement with an effect in a checked fragment")
+        return "(" + " ".join(out + [self.ctail(tail, env)]) + ")"
+
     def droppable(self, e):
         if e[0] == "macro" and e[1] in DROPPED_MACROS:
             return True
@@ -997,9 +1097,26 @@ class Gen:
 COQTY = {"num": None, "bool": "bool", "unit": "unit"}
 
 
+def apply_subst(frag, text):
+    for rx, rep in frag.subst:
+        text = re.sub(rx, rep, text)
+    return text
+
+
 def translate(frag, repo, consts):
     src = strip_comments(open(os.path.join(repo, frag.file)).read())
-    if frag.expr is not None:
+    if frag.block is not None:
+        m0 = list(re.finditer(frag.block[0], src, re.M))
+        if len(m0) <= frag.nth:
+            raise TrError("block start %r not found" % frag.block[0])
+        st = m0[frag.nth].start()
+        m1 = re.compile(frag.block[1], re.M).search(src, m0[frag.nth].end())
+        if not m1:
+            raise TrError("block end %r not found" % frag.block[1])
+        text = apply_subst(frag, src[st:m1.end()])
+        p = P(tokenize("{" + text + "}"))
+        body = p.block()
+    elif frag.expr is not None:
         ms = re.findall(frag.expr, src, re.M)
         if len(ms) <= frag.nth:
             raise TrError("anchored expression %r not found" % frag.expr)
@@ -1007,15 +1124,14 @@ def translate(frag, repo, consts):
             texts = set()
             for m in ms:
                 g0 = Gen(frag, consts)
-                texts.add(g0.blk(("block", [], P(tokenize(m)).expr()), {})[0])
+                texts.add(g0.blk(("block", [], P(tokenize(apply_subst(frag, m))).expr()), {})[0])
             if len(texts) != 1:
                 raise TrError("the %d occurrences of %r do not translate to one term: %s" % (len(ms), frag.expr, sorted(texts)))
             frag.doc += " [%d sites]" % len(ms)
-        body = ("block", [], P(tokenize(ms[frag.nth])).expr())
-        sig = ""
+        body = ("block", [], P(tokenize(apply_subst(frag, ms[frag.nth]))).expr())
     else:
         sig, text = find_fn(src, frag)
-        p = P(tokenize("{" + text + "}"))
+        p = P(tokenize("{" + apply_subst(frag, text) + "}"))
         body = p.block()
         if p.peek() is not None:
             raise TrError("trailing tokens after the function body")
@@ -1027,6 +1143,9 @@ def translate(frag, repo, consts):
     if frag.atomic:
         term, ty = g.ablk(body, {}, "w0")
         head = "Definition %s %s (w0 : N) :=" % (frag.name, ps)
+    elif frag.sub == "checked":
+        term = g.cblk(body, {})
+        head = "Definition %s %s :=" % (frag.name, ps)
     else:
         term, ty = g.blk(body, {}, top=True)
         head = "Definition %s %s :=" % (frag.name, ps)
@@ -1052,7 +1171,7 @@ def main():
     consts = load_const_names()
     lines = ["(* GENERATED by tools/rs2v.py from the Rust sources of the repository under check - do not edit. *)",
              "From Coq Require Import NArith Bool List.",
-             "From Compio.Model Require Import RsSem.",
+             "From Compio.Model Require Import Base RsSem.",
              "From Compio.Gen Require Consts.",
              ""]
     bad = 0
